@@ -553,6 +553,17 @@ class BreakStmt:
 
 
 @dataclass
+class ContinueStmt:
+    """A ``continue`` statement that starts the next iteration of the innermost loop.
+
+    ``ends_pass`` is set when the innermost loop is the main ``while True:`` loop,
+    whose next iteration is the next call of ``loop()``.
+    """
+
+    ends_pass: bool = False
+
+
+@dataclass
 class CatchClause:
     """A ``catch`` clause attached to a :class:`TryStatement`."""
 
